@@ -98,9 +98,6 @@ def roundtrip_verdict(rep, case, enc_mode, dec_codec, data, idr, prop_sig_prefix
     if ok:
         return True
     sig = sigs.classify_roundtrip(case.t, case.v, cdc, dm)
-    if sig is None and idr[0] == 'ok' and idr[2] == b'' and sigs.has_constructed_default(case.t) \
-            and sigs.t11_witness(case.t, case.v, case.fresh_obj()):
-        sig = 'T11-default-of-constructed-type'     # wrong omission decided by `==` on constructed values
     if sig is None:
         if idr[0] == 'err':
             sig = 'roundtrip-' + idr[1]
